@@ -122,6 +122,14 @@ func (e *Engine) rtCall(name string, args []Value, st *State, depth int, site ss
 		return one(st, NewVar(str(0), 0))
 	case "Bytes":
 		return one(st, symStr(str(0), int(num(1))))
+	case "BytesIn":
+		// like Bytes, every byte declared with the range [lo,hi] (decided by the engine's interval / small-domain evaluation)
+		n, lo, hi := int(num(1)), uint64(num(2)), uint64(num(3))
+		b := make([]*Term, n)
+		for i := range b {
+			b[i] = NewVarRange(fmt.Sprintf("%s[%d]", str(0), i), 8, lo, hi)
+		}
+		return one(st, strFromBytes(BV(uint64(n), 64), b))
 	case "Choice":
 		sv := args[1].(SliceV)
 		var opts []string
@@ -201,12 +209,17 @@ func (e *Engine) rtCall(name string, args []Value, st *State, depth int, site ss
 		target := str(0)
 		iv := args[1].(IfaceV)
 		e.stubs[target] = iv.v.(*FuncV)
+		delete(st.calls, "unstub:"+target)
 		return one(st, nil)
 	case "LiftCall":
 		e.liftFns[str(0)] = true
 		return one(st, nil)
+	case "MergeIn":
+		e.mergeFns[str(0)] = true
+		return one(st, nil)
 	case "Unstub":
-		delete(e.stubs, str(0))
+		// per path: other paths of a forking harness may still be inside the code that uses the stub
+		st.calls["unstub:"+str(0)] = 1
 		return one(st, nil)
 	case "Freeze":
 		e.freeze(st)
@@ -246,8 +259,9 @@ func (e *Engine) rtCall(name string, args []Value, st *State, depth int, site ss
 			e.notes[k] = v
 		}
 		return one(st, nil)
-	case "Split":
-		// case split an int into its feasible concrete values
+	case "Split", "SplitFeasible":
+		// case split an int into its feasible concrete values (SplitFeasible: values that are infeasible
+		// on every path are not counted as gaps - the caller splits only the paths that got this far)
 		t := args[0].(*Term)
 		if t.op == OpConst {
 			return one(st, t)
@@ -266,7 +280,7 @@ func (e *Engine) rtCall(name string, args []Value, st *State, depth int, site ss
 			if e.solver.Check(ns.pc) == ResUnsat {
 				continue
 			}
-			if t.op == OpVar {
+			if t.op == OpVar && name == "Split" {
 				// coverage of case splits: which values of the declared range were taken
 				if splitSeen[t.name] == nil {
 					splitSeen[t.name] = map[uint64]bool{}
